@@ -107,6 +107,49 @@ class _Null(object):
         pass
 
 
+def check_tees_odd_headers(chk, tmp):
+    """Headers whose field names are not strings (None, ints, floats) and the writer arguments that look at them:
+    quoting modes for csv, td_styles keyed by field name and truncate for html."""
+    import petl as etl
+    import csv as _csv
+    tables_ = [('None / int / float field names', [[u'id', None, 2019, 2020.5], [1, u'a', 2, 3.5], [2, u'b', 4, 5.5]]),
+               ('int field names', [[0, 1], [u'x', u'y']])]
+    pairs = [('csv', lambda t, s: etl.teecsv(t, s, encoding='utf-8'), lambda t, s: etl.tocsv(t, s, encoding='utf-8')),
+             ('csv QUOTE_NONNUMERIC', lambda t, s: etl.teecsv(t, s, encoding='utf-8', quoting=_csv.QUOTE_NONNUMERIC),
+              lambda t, s: etl.tocsv(t, s, encoding='utf-8', quoting=_csv.QUOTE_NONNUMERIC)),
+             ('csv QUOTE_ALL', lambda t, s: etl.teecsv(t, s, encoding='utf-8', quoting=_csv.QUOTE_ALL), lambda t, s: etl.tocsv(t, s, encoding='utf-8', quoting=_csv.QUOTE_ALL)),
+             ('tsv', lambda t, s: etl.teetsv(t, s, encoding='utf-8'), lambda t, s: etl.totsv(t, s, encoding='utf-8')),
+             ('pickle', lambda t, s: etl.teepickle(t, s), lambda t, s: etl.topickle(t, s)),
+             ('html', lambda t, s: etl.teehtml(t, s, encoding='utf-8'), lambda t, s: etl.tohtml(t, s, encoding='utf-8')),
+             ('html td_styles by field', lambda t, s: etl.teehtml(t, s, encoding='utf-8', td_styles={t[0][-1]: 'color: red', t[0][0]: 'x: y'}),
+              lambda t, s: etl.tohtml(t, s, encoding='utf-8', td_styles={t[0][-1]: 'color: red', t[0][0]: 'x: y'})),
+             ('html tr_style, index_header, vrepr', lambda t, s: etl.teehtml(t, s, encoding='utf-8', tr_style=lambda r: 'a: b', index_header=True, vrepr=repr),
+              lambda t, s: etl.tohtml(t, s, encoding='utf-8', tr_style=lambda r: 'a: b', index_header=True, vrepr=repr))]
+    for cls, table in tables_:
+        for name, tee, to in pairs:
+            t1, t2 = iolib.Target('path', tmp, 'tee'), iolib.Target('path', tmp, 'to')
+            chk.count(('tee-odd-header', cls, name))
+            chk.replayed += 1
+            res = []
+            for fn, tgt in ((tee, t1), (to, t2)):
+                try:
+                    out = fn(table, tgt.src)
+                    rows = [tuple(r) for r in out] if out is not None else None
+                    res.append(('ok', rows, tgt.raw()))
+                except Exception as e:
+                    res.append(('raised', type(e).__name__, None))
+            (s1, rows, b1), (s2, _r, b2) = res
+            sig = {'op': 'tee' + name.split(' ')[0], 'kind': 'tee', 'source': 'path'}
+            what = 'tee%s vs to%s on a table with %s' % (name, name, cls)
+            if s1 != s2:
+                chk.violation(dict(sig, clause='raises'), '%s: tee %s %r, to* %s %r' % (what, s1, res[0][1] if s1 == 'raised' else '', s2, res[1][1] if s2 == 'raised' else ''),
+                              {'kind': 'tee-odd', 'name': name, 'cls': cls})
+            elif s1 == 'ok' and rows != [tuple(r) for r in table]:
+                chk.violation(dict(sig, clause='rows'), '%s: the tee view delivered %r' % (what, rows), {'kind': 'tee-odd', 'name': name, 'cls': cls})
+            elif s1 == 'ok' and b1 != b2:
+                chk.violation(dict(sig, clause='bytes'), '%s: target holds %r, to* writes %r' % (what, b1[:300], b2[:300]), {'kind': 'tee-odd', 'name': name, 'cls': cls})
+
+
 def check_passthrough(chk):
     import petl as etl
     logging.getLogger('petl.util.timing').setLevel(logging.CRITICAL)
@@ -185,6 +228,7 @@ def run(tier, seed):
         chk.add_tlc(rp, 'PassThrough', 'PassThrough_%d' % b)
     with common.private_tmp() as tmp:
         check_tees(chk, tmp)
+        check_tees_odd_headers(chk, tmp)
     check_passthrough(chk)
     check_passthrough_large(chk)
     # V: tee traces through the recording source (same trace spec as C15)
